@@ -2,6 +2,7 @@ package main
 
 import (
 	"fmt"
+	"go/token"
 	"sort"
 	"strings"
 
@@ -193,10 +194,27 @@ func c01Explain(c *Ctx, r *Report, p *Prov, rule string) {
 		return
 	}
 	var site *ssa.Call
+	iterSite := false
 	for _, call := range callsIn(cmdFn, func(k string, cc *ssa.Call) bool { return cc.Call.StaticCallee() == cmdFn }) {
 		if rv, kv, ok := getKeyValueOf(call.Call.Args[0]); ok && peel(rv) == ssa.Value(cmdFn.Params[0]) {
 			if s, isC := constString(kv); isC && s == "explain" {
 				site = call
+			}
+		}
+		// the member-iteration form: el.Value under `el.Key == "explain"`
+		if m, e, ok := memberOfIteration(cmdFn, call.Call.Args[0]); ok && peel(m) == ssa.Value(cmdFn.Params[0]) {
+			for _, in := range *e.Referrers() {
+				if fa, isFA := in.(*ssa.FieldAddr); isFA {
+					if name, okN := elemFieldName(fa); okN && name == "Key" {
+						for _, ld := range *fa.Referrers() {
+							if lv, isV := ld.(ssa.Value); isV {
+								if ks := p.keysAt(lv, call.Block()); len(ks) == 1 && ks[0] == "explain" {
+									site, iterSite = call, true
+								}
+							}
+						}
+					}
+				}
 			}
 		}
 	}
@@ -208,6 +226,11 @@ func c01Explain(c *Ctx, r *Report, p *Prov, rule string) {
 	var bad []string
 	for _, a := range p.atomsAt(site.Block()) {
 		if !allowedDispatchAtoms[a.Kind] {
+			if iterSite && (a.Kind == "strconst" || a.Kind == "inset" || a.Kind == "or") {
+				if _, name, isLoad := elemFieldLoad(peel(a.X)); a.Kind == "or" || (isLoad && name == "Key") {
+					continue // the tests of the member's name that select this case
+				}
+			}
 			bad = append(bad, a.String())
 		}
 	}
@@ -286,6 +309,8 @@ func (p *Prov) zoneSets(cmdFn *ssa.Function) map[string][]zoneSet {
 				return
 			}
 			k := keyConst
+			var iterKeys []string // the member-iteration form: Set(cmd, el.Key, ...) under tests of el.Key
+			var iterEl ssa.Value
 			if keyV != nil {
 				if call.Call.Args[1] != keyV {
 					return
@@ -293,11 +318,24 @@ func (p *Prov) zoneSets(cmdFn *ssa.Function) map[string][]zoneSet {
 			} else {
 				s, isC := constString(call.Call.Args[1])
 				if !isC {
-					return
+					if e, name, isLoad := elemFieldLoad(peel(call.Call.Args[1])); isLoad && name == "Key" {
+						for _, l := range iterLoops(fn) {
+							if l.Kind == "omap" && l.Elem == e && peel(l.Coll) == recvV {
+								iterKeys, iterEl = p.keysAt(call.Call.Args[1], call.Block()), e
+							}
+						}
+					}
+					if len(iterKeys) == 0 {
+						return
+					}
 				}
 				k = s
 			}
 			keyOf := func(v ssa.Value) bool {
+				if iterEl != nil {
+					m, e, ok := memberOfIteration(fn, v)
+					return ok && e == iterEl && peel(m) == recvV
+				}
 				if keyV != nil {
 					return sameKey(v)
 				}
@@ -334,9 +372,39 @@ func (p *Prov) zoneSets(cmdFn *ssa.Function) map[string][]zoneSet {
 				}
 			}
 			for _, a := range append(append([]Atom{}, atoms...), outer...) {
-				if !allowedDispatchAtoms[a.Kind] {
-					zs.extra = append(zs.extra, a.String())
+				if allowedDispatchAtoms[a.Kind] {
+					continue
 				}
+				if iterEl != nil {
+					// tests of the member's own name (the `case` that selects this rewrite, the
+					// cases before it) are the dispatch itself
+					onKey := func(x ssa.Value) bool {
+						e, name, ok := elemFieldLoad(peel(x))
+						return ok && name == "Key" && e == iterEl
+					}
+					if (a.Kind == "strconst" || a.Kind == "inset") && a.X != nil && onKey(a.X) {
+						continue
+					}
+					if a.Kind == "or" {
+						all := len(a.Or) > 0
+						for _, d := range a.Or {
+							if !(d.Kind == "strconst" && d.X != nil && onKey(d.X)) {
+								all = false
+							}
+						}
+						if all {
+							continue
+						}
+					}
+				}
+				zs.extra = append(zs.extra, a.String())
+			}
+			if iterEl != nil {
+				zs.via = " (while passing over the members of the command document)"
+				for _, ik := range iterKeys {
+					out[ik] = append(out[ik], zs)
+				}
+				return
 			}
 			out[k] = append(out[k], zs)
 		})
@@ -829,4 +897,122 @@ func lastKeyLookupRule(c *Ctx, r *Report, rule string) {
 			r.OK(rule, construct, "src/operators.go", fmt.Sprintf("typed %s: its arm hands the document to %d walker call(s) with the vocabulary parameter constant false", typ, nCalls))
 		}
 	}
+}
+
+// elemFieldLoad: v is a load of field `Key` / `Value` of an ordered-map element -> (element value, field name).
+func elemFieldLoad(v ssa.Value) (ssa.Value, string, bool) {
+	ld, ok := v.(*ssa.UnOp)
+	if !ok || ld.Op != token.MUL {
+		return nil, "", false
+	}
+	fa, ok := ld.X.(*ssa.FieldAddr)
+	if !ok {
+		return nil, "", false
+	}
+	name, ok := elemFieldName(fa)
+	if !ok {
+		return nil, "", false
+	}
+	return fa.X, name, true
+}
+
+// memberOfIteration: v is (a type assertion of) el.Value where el is the element of a
+// Front / Next loop over document m: the member m[el.Key]. Returns m and the element.
+func memberOfIteration(fn *ssa.Function, v ssa.Value) (m ssa.Value, el ssa.Value, ok bool) {
+	for depth := 0; depth < 6; depth++ {
+		switch x := v.(type) {
+		case *ssa.Extract:
+			ta, isTA := x.Tuple.(*ssa.TypeAssert)
+			if !isTA {
+				return nil, nil, false
+			}
+			v = ta.X
+		case *ssa.TypeAssert:
+			v = x.X
+		case *ssa.MakeInterface:
+			v = x.X
+		case *ssa.ChangeInterface:
+			v = x.X
+		case *ssa.Phi:
+			a := phiAlias[x]
+			if a == nil {
+				return nil, nil, false
+			}
+			v = a
+		default:
+			e, name, isLoad := elemFieldLoad(v)
+			if !isLoad || name != "Value" {
+				return nil, nil, false
+			}
+			for _, l := range iterLoops(fn) {
+				if l.Kind == "omap" && l.Elem == e {
+					return l.Coll, e, true
+				}
+			}
+			return nil, nil, false
+		}
+	}
+	return nil, nil, false
+}
+
+// keysAt: the constant keys that the key value kv is known to be one of at block b: a
+// constant itself, or the Key of a loop element under `key == "a"` / `case "a", "b":` tests.
+func (p *Prov) keysAt(kv ssa.Value, b *ssa.BasicBlock) []string {
+	if s, ok := constString(kv); ok {
+		return []string{s}
+	}
+	e, name, ok := elemFieldLoad(peel(kv))
+	if !ok || name != "Key" {
+		return nil
+	}
+	same := func(x ssa.Value) bool {
+		e2, n2, ok2 := elemFieldLoad(peel(x))
+		return ok2 && n2 == "Key" && e2 == e
+	}
+	var best []string
+	for _, a := range p.atomsAt(b) {
+		if !a.Pol || a.X == nil || !same(a.X) {
+			continue
+		}
+		switch a.Kind {
+		case "strconst":
+			return []string{a.Name}
+		case "inset":
+			if best == nil || len(a.Set) < len(best) {
+				best = a.Set
+			}
+		}
+	}
+	return best
+}
+
+// memberKeys: v is the member cmd[K] of document recv - read with Get(recv, "K"), or as
+// el.Value while passing over recv's members under tests that fix el.Key to a set of names.
+func (p *Prov) memberKeys(fn *ssa.Function, v ssa.Value, at *ssa.BasicBlock) (recv ssa.Value, keys []string, ok bool) {
+	if rv, kv, okG := getKeyValueOf(v); okG {
+		if s, isC := constString(kv); isC {
+			return peel(rv), []string{s}, true
+		}
+	}
+	m, e, okM := memberOfIteration(fn, v)
+	if !okM || e.Referrers() == nil {
+		return nil, nil, false
+	}
+	for _, in := range *e.Referrers() {
+		fa, isFA := in.(*ssa.FieldAddr)
+		if !isFA || fa.Referrers() == nil {
+			continue
+		}
+		if name, okN := elemFieldName(fa); !okN || name != "Key" {
+			continue
+		}
+		for _, ld := range *fa.Referrers() {
+			if lv, isV := ld.(ssa.Value); isV {
+				if ks := p.keysAt(lv, at); len(ks) > 0 {
+					return peel(m), ks, true
+				}
+			}
+		}
+	}
+	return nil, nil, false
 }
